@@ -60,6 +60,8 @@ def ev_int(t, env):
             return bool(args[0]) and bool(args[1])
         if n in ("logical_or",):
             return bool(args[0]) or bool(args[1])
+        if n in ("logical_xor",):
+            return bool(args[0]) != bool(args[1])
         if n in ("asarray", "array", "int", "bool"):
             return args[0]
         if n == "min":
@@ -68,4 +70,15 @@ def ev_int(t, env):
             return max(args)
         if n == "clip" and len(args) == 3:
             return min(max(args[0], args[1]), args[2])
+    if is_t(t, "call") and is_t(t[1], "attr") and is_t(t[1][1], "global") and t[1][1][1].split(".")[-1] == "FlagOp":
+        n = t[1][2]
+        args = [ev_int(x, env) for x in t[2]]
+        if n == "and_":
+            return bool(args[0]) and bool(args[1])
+        if n == "or_":
+            return bool(args[0]) or bool(args[1])
+        if n == "xor_":
+            return bool(args[0]) != bool(args[1])
+        if n == "not_":
+            return not bool(args[0])
     raise Unrecognised(str(t)[:80])
